@@ -19,6 +19,8 @@ MsgsA123  == [s \in {"A", "B"} |-> IF s = "A" THEN <<Mg(1, 1), Mg(1, 2), Mg(1, 3
 MsgsPR2    == [s \in {"A", "B"} |-> IF s = "A" THEN <<Mg(2, 1), Mg(1, 1)>> ELSE <<>>]
 MsgsPR3    == [s \in {"A", "B"} |-> IF s = "A" THEN <<Mg(2, 3), Mg(1, 1), Mg(2, 1)>> ELSE <<>>]
 MsgsA22    == [s \in {"A", "B"} |-> IF s = "A" THEN <<Mg(1, 2), Mg(1, 2)>> ELSE <<>>]
+\* a burst of one-chunk messages (T3 marks RtxBurst of them, the others are re-timed)
+MsgsA111   == [s \in {"A", "B"} |-> IF s = "A" THEN <<Mg(1, 1), Mg(1, 1), Mg(1, 1)>> ELSE <<>>]
 \* two channels: messages alternate
 MsgsTwoCh == [s \in {"A", "B"} |-> IF s = "A" THEN <<Mg(1, 1), Mg(2, 2), Mg(1, 2), Mg(2, 1)>> ELSE <<>>]
 MsgsTwoCh3 == [s \in {"A", "B"} |-> IF s = "A" THEN <<Mg(2, 2), Mg(1, 1), Mg(2, 1)>> ELSE <<>>]
